@@ -198,6 +198,10 @@ def c16_scenarios(tier):
     for n in ([2, 5, 13] if tier == "quick" else [2, 3, 5, 13, 34]):
         for lis in (["--stdout", "--stderr"], ["--stdout", "-t", "g00", "g01"], ["--stderr", "-t", "g00"]):
             out.append(("c16", {"n": n, "pos": "middle", "ncmd": 1, "listener": lis}, {}))
+    # the group reached through -t ... --deps instead of change detection
+    for n in ([2, 5, 24] if tier == "quick" else [2, 3, 5, 13, 24, 48]):
+        for pos, named in (("middle", "last"), ("only", "all"), ("last", "all")):
+            out.append(("c16", {"n": n, "pos": pos, "ncmd": 1, "select": "deps", "named": named}, {}))
     # some members of the group do not define the command (first / middle / last in declaration order, several)
     for n in ([3, 6, 24] if tier == "quick" else [3, 4, 6, 13, 24, 48]):
         for undef in ([0], [n // 2], [n - 1], [0, 1], [0, n // 2, n - 1]):
@@ -263,6 +267,10 @@ def c16_task(desc):
         for c in cmds:
             modes[(group[i], c)] = None
     sn = sched.Scenario("group%d/%s/%dcmd" % (n, pos, ncmd), ts, modes, ["-c"] + cmds, cmds)
+    if desc.get("select") == "deps":
+        # the same plan reached through explicit targets and --deps (the last target of the plan, or all of them)
+        named = [t["path"] for t in ts] if desc.get("named") == "all" else [ts[-1]["path"]] if pos in ("middle", "first") else [t["path"] for t in ts]
+        sn = sched.Scenario(sn.name + "/-t+deps", ts, modes, ["-c"] + cmds + ["-t"] + named + ["--deps"], cmds, explicit=named, deps=True)
     s = sc.Scratch("c16")
     try:
         r = sched.build_repo(s, sn)
